@@ -35,6 +35,7 @@ import numpy as np
 from .. import universe as U
 from .. import meshgen as G
 from .. import elements as EL
+from .. import meshops as MO
 from ..par import Pool
 from ..core import guarded, MachineryError
 from ..project import fx, ids
@@ -244,7 +245,8 @@ def probe_recipe(kind, p, t, elem, rng, fam, tier='quick'):
              {'op': 'interpolator_qp1', 'j': int(rng.integers(0, 1000))},
              {'op': 'point_source_qp1', 'j': int(rng.integers(0, 1000))},
              {'op': 'probes', 'pts': [a, oth[-1]]},                  # one point far outside: must raise
-             {'op': 'point_source', 'pts': [a]},                     # scalar elements only (skipped otherwise)
+             {'op': 'point_source', 'pts': [a]},                     # vector / tensor elements: PointSourceVec event
+             {'op': 'point_source', 'pts': [g(7)]},
              {'op': 'interpolator_nd', 'pts': [g(j) for j in range(6)]}]      # trailing axes (scalar elements only)
     if elem in SLOW:
         calls = [cl for cl in calls if cl.get('slow')] + ([calls[4], calls[6]] if tier == 'thorough' else [])
@@ -388,12 +390,44 @@ def _find(m, X):
     return m.element_finder()(*[np.array(r) for r in X])
 
 
+def _history_mesh(rec, scale=1.):
+    """The mesh of a recipe.  With rec['derive'] the mesh is reached through a HISTORY: the base mesh is built and USED
+    (finder called, a basis built and probed: whatever the library caches on the object is now there), then the
+    operations of the history (each returns a new mesh) are applied and the DERIVED mesh is returned."""
+    kind = rec['kind']
+    d = rec.get('derive')
+    if not d:
+        return U.make(kind, np.array(rec['p'], dtype=float) * scale, rec['t'])
+    import skfem
+    m = U.make(kind, np.array(d['p'], dtype=float) * scale, d['t'])
+    if d.get('use', 1):
+        c = m.p[:, m.t[:, :3]].mean(axis=1)
+        m.element_finder()(*[np.array(r) for r in c])
+        b0 = skfem.Basis(m, m.elem())
+        b0.probes(c)
+        b0.interpolator(np.arange(b0.N, dtype=float))(c[:, :1])
+    for op in d['ops']:
+        m = MO.apply_op(m, [op[0]] + [a * scale if (op[0] in ('translated', 'plus_translated') and j == 1) else a
+                                        for j, a in enumerate(op[1:])])
+    return m
+
+
+def _mesh_pt(m, kind, S, what):
+    """Integer coordinates (at scale S) and cells of a mesh object, for the Mesh event."""
+    nv = {'line': 2, 'tri': 3, 'quad': 4, 'tet': 4, 'hex': 8, 'wedge': 6}[kind]
+    return _ints(np.asarray(m.p) * S, what).T.tolist(), np.asarray(m.t)[:nv]
+
+
 def exec_find(rec):
     S = rec['S']
     kind = rec['kind']
     events = []
-    mm, err = guarded(lambda: U.make(kind, rec['p'], rec['t']), 30)
-    ev = mesh_event(kind, rec['p'], rec['t'], S)
+    mm, err = guarded(lambda: _history_mesh(rec), 60)
+    if not err and rec.get('derive'):
+        P, T = _mesh_pt(mm, kind, 1, 'derived mesh')
+        ev = mesh_event(kind, np.array(P).T, T, S)
+    else:
+        ev = mesh_event(kind, rec['p'], rec['t'], S)
     ev['err'] = err
     events.append(ev)
     if err:
@@ -527,7 +561,10 @@ def exec_probe(rec):
     events.append(ev)
 
     def build():
-        m = U.make(kind, np.array(rec['p'], dtype=float) * G2, rec['t'])
+        m = _history_mesh(rec, G2)
+        if rec.get('derive'):
+            P, T = _mesh_pt(m, kind, 1. / G2, 'derived mesh')
+            ev.update(mesh_event(kind, np.array(P).T, T, S))
         X = np.array(rec.get('X8', DYADIC_X[kind]), dtype=float) / 8.
         W = np.full(X.shape[1], 1. / X.shape[1])
         b = skfem.Basis(m, EL.make(name), quadrature=(X, W))
@@ -681,10 +718,19 @@ def exec_probe(rec):
         ncomp = int(phis[0].size // N)
         if bev['ncomp'] == 0:
             bev['ncomp'] = ncomp
-        if op == 'point_source' and ncomp != 1:
-            continue                                                        # point_source: scalar elements only
         ph = phis.reshape(nbfun, ncomp, N)                                  # component-major as in probes
         fph = [[[fx(float(ph[i, c, n])) for i in range(nbfun)] for c in range(ncomp)] for n in range(N)]
+        if op == 'point_source' and ncomp != 1:
+            # vector / tensor valued elements: ONE vector for ncomp components - judged by PointSourceIsFirstRowOfProbes
+            for pname, part in [('re', np.real)] + ([('im', np.imag)] if coef == 'complex' else []):
+                pv = dict(e, a='PointSourceVec', ypart=pname, cells=[int(k) + 1 for k in cells], phis=fph,
+                          pscols=[int(c) + 1 for c in ps[0]], psvals=[fx(float(v)) for v in ps[1]],
+                          val=fx(float(part(np.asarray(vals))[0])))
+                if pv['val'] is None or any(v is None for v in pv['psvals']) \
+                        or any(v is None for pn in fph for pc in pn for v in pc):
+                    pv['err'] = 'NonFinite'
+                events.append(pv)
+            continue
         if rows is None:                                                    # interpolator: structure not observable
             rows = [[] for _ in range(ncomp * N)]
         parts = [('re', np.real)] + ([('im', np.imag)] if coef == 'complex' else [])
@@ -764,6 +810,46 @@ def _scen(args):
     return scenario(*args)
 
 
+# ---- finder / probes HISTORIES across derived meshes: the base mesh is used first (finder, basis, probes), then another
+# mesh is derived from it and located / probed on
+DERIVE_BASE = {'line': lambda: U.line_points([0, 2, 4, 8]), 'tri': lambda: G.tensor_tri([0, 2, 4], [0, 2, 4], (0, 1, 1, 0)),
+               'quad': lambda: G.tensor_quad([0, 2, 4], [0, 2, 6]), 'tet': lambda: tuple(a * (2 if j == 0 else 1) for j, a in enumerate(U.tet_cubes(1, 6))),
+               'hex': lambda: G.tensor_hex([0, 2, 4], [0, 2], [0, 4]), 'wedge': lambda: G.tensor_wedge([0, 2, 4], [0, 2], [0, 2], (0, 1))}
+DERIVE_OPS = [[['translated', 0, 2]], [['scaled', 0, 2]], [['refined', 1]], [['mirrored', 0]], [['restrict', [1, 2, 3, 5]]],
+              [['morphed', 0, 1, 1]], [['translated', 1, 2], ['scaled', 0, 2]], [['refined', 1], ['translated', 0, 2]]]
+DERIVE_ELEMS = {'line': ['ElementLineP2'], 'tri': ['ElementTriP2', 'ElementVector(TriP1)'], 'quad': ['ElementQuad2', 'ElementQuadRT1'],
+                'tet': ['ElementTetP2'], 'hex': ['ElementHex1'], 'wedge': ['ElementWedge1']}
+
+
+def derived_recipes(kind, rng, nops, tier):
+    p, t = DERIVE_BASE[kind]()
+    p, t = np.asarray(p, dtype=float), np.asarray(t)
+    ops = [o for o in DERIVE_OPS
+           if not (kind == 'wedge' and any(x[0] in ('refined', 'mirrored') for x in o))
+           and not (kind == 'line' and any(x[0] == 'morphed' for x in o))
+           and not (p.shape[0] == 1 and any(x[0] == 'translated' and x[1] == 1 for x in o))]
+    start = int(rng.integers(0, len(ops)))
+    out = []
+    for j in range(nops):
+        o = ops[(start + j) % len(ops)]
+        base = {'p': p.astype(int).tolist(), 't': t.astype(int).tolist(), 'ops': o}
+        # the derived mesh as obtained WITHOUT prior use (control): its points serve to generate the queries
+        mc = _history_mesh({'kind': kind, 'derive': dict(base, use=0)})
+        nv = {'line': 2, 'tri': 3, 'quad': 4, 'tet': 4, 'hex': 8, 'wedge': 6}[kind]
+        pd, td = np.asarray(mc.p), np.asarray(mc.t)[:nv]
+        fam = kind + '-derived-' + '+'.join(x[0] for x in o)
+        r = find_recipe(kind, pd, td, rng, fam, nsingle=12, nbatch=3)
+        r['derive'] = dict(base, use=1)
+        out.append(r)
+        name = DERIVE_ELEMS[kind][j % len(DERIVE_ELEMS[kind])]
+        if np.array_equal(pd, np.rint(pd)) and td.shape[1] <= 40:
+            q = probe_recipe(kind, pd, td, name, rng, fam, tier)
+            q['calls'] = [c for c in q['calls'] if c.get('coef', 'real') == 'real' and 'buf' not in c][:9]
+            q['derive'] = dict(base, use=1)
+            out.append(q)
+    return out
+
+
 def from_suite(ctx):
     """Suite stream (thorough tier): the repository's own tests are the drivers.  harness/suite_c14.py records every
     call of a finder returned by Mesh.element_finder() and every CellBasis.probes / interpolator / point_source
@@ -808,6 +894,9 @@ def run(ctx):
         # points exactly on the domain boundary of meshes with generic cell determinants, every local vertex order
         for kind, nvar in (('tet', 4), ('hex', 3), ('wedge', 2), ('tri', 3), ('quad', 2)):
             recs += boundary_recipes(kind, brng, nvar + (2 if th and kind == 'hex' else 0))
+        # finder / probes histories across DERIVED meshes (used base mesh -> refined / translated / scaled / ...)
+        for kind in ('line', 'tri', 'quad', 'tet', 'hex', 'wedge'):
+            recs += derived_recipes(kind, brng, 6 if th else 3, ctx.tier)
         # non-affine cells (and simplices) at physical scales 2^g
         for kind, names in SCALED_ELEMS.items():
             for en, name in enumerate(names):
